@@ -204,11 +204,32 @@ class CompositeFrontend(ConstrainedFrontend):
         log.debug("... split solver %r into %d parts", s, len(ss))
         log.debug("... variable counts: %s", [len(cs.variables) for cs in ss])
 
-        for ns in ss:
+        self._replace_children([s], ss)
+        return ss
+
+    def _replace_children(self, old_children, new_children):
+        """
+        Store `new_children` (the independent parts of the constraints of `old_children`) in place of `old_children`.
+        """
+        for ns in new_children:
+            if len(ns.variables) == 0:
+                # variable-free constraints cannot be filed under a variable name; all that matters is whether one of
+                # them is false
+                for c in ns.constraints:
+                    try:
+                        if backends.concrete.convert(c) is False:
+                            self._unsat = True
+                    except BackendError:
+                        pass
+                continue
             self._owned_solvers.add(ns)
             self._store_child(ns)
 
-        return ss
+        # a variable that no longer occurs in any constraint must not keep pointing at a replaced child, which would
+        # stay part of this solver with an outdated copy of the constraints
+        old_ids = {id(o) for o in old_children}
+        for v in [v for v, child in self._solvers.items() if id(child) in old_ids]:
+            del self._solvers[v]
 
     def _reabsorb_solver(self, s):
         try:
@@ -230,9 +251,7 @@ class CompositeFrontend(ConstrainedFrontend):
                     v = min(iter(ss.variables))
                     self._solvers[v].update(ss)
             else:
-                for ns in new_solvers:
-                    self._owned_solvers.add(ns)
-                    self._store_child(ns)
+                self._replace_children(old_solvers, new_solvers)
 
     def _store_child(self, ns, extra_names=frozenset(), invalidate_cache=True):
         for v in ns.variables | extra_names:
@@ -332,7 +351,7 @@ class CompositeFrontend(ConstrainedFrontend):
                 # skip solvers covered by extra constraints (they were checked above)
                 continue
 
-            if len(s.variables) == 0 or self._solvers[min(iter(s.variables))] is not s:
+            if len(s.variables) == 0 or self._solvers.get(min(iter(s.variables))) is not s:
                 # this happens when a parent solver didn't check all unchecked solvers, and we have stale
                 # child solvers in the unchecked list
                 continue
